@@ -346,7 +346,7 @@ func ambiguity(kinds []string) []string {
 func TestAllTokenSequencesToBound(t *testing.T) {
 	rec.Begin(t)
 	rec.Rule(rule)
-	maxLen := rec.Pick(9, 11)
+	maxLen := rec.Pick(10, 12)
 	var seqs, viable, accepted int
 	var walk func(prefix []string)
 	walk = func(prefix []string) {
